@@ -236,7 +236,9 @@ func statuses() map[int64]string {
 		n = runtime.Stack(buf, true)
 	}
 	res := map[int64]string{}
-	for _, line := range strings.Split(string(buf[:n]), "\n") {
+	for _, block := range strings.Split(string(buf[:n]), "\n\n") {
+		lines := strings.Split(block, "\n")
+		line := lines[0]
 		if !strings.HasPrefix(line, "goroutine ") {
 			continue
 		}
@@ -257,6 +259,24 @@ func statuses() map[int64]string {
 		st := rest[lb+1 : rb]
 		if c := strings.IndexByte(st, ','); c >= 0 {
 			st = st[:c]
+		}
+		// A goroutine waiting for one of the HARNESS's own mutexes (the scheduler's, the runner's: held for a few
+		// instructions while an event is logged) is not blocked inside the code under test - it is on its way.
+		// Under load several goroutines can be seen there at the same moment; taking that for quiescence would end
+		// a run early.  The innermost frame that is not runtime / sync tells whose lock it is.
+		if strings.Contains(st, "Mutex") {
+			for _, fr := range lines[1:] {
+				if fr == "" || fr[0] == '\t' {
+					continue
+				}
+				if strings.HasPrefix(fr, "sync.") || strings.HasPrefix(fr, "runtime.") || strings.HasPrefix(fr, "internal/") {
+					continue
+				}
+				if strings.HasPrefix(fr, "verifharness/") {
+					st = "busy: harness mutex"
+				}
+				break
+			}
 		}
 		res[id] = st
 	}
